@@ -768,6 +768,7 @@ func parentMain(c *Check, tier Tier, seed uint64, nworkers int, evidencePath, re
 	knownHit := map[string]bool{}
 	var lines []string
 	budget := time.Now().Add(240 * time.Second)
+	var unrepro []string
 	for _, fp := range fps {
 		f := total.Found[fp]
 		if f.V.Clause == "SIMULATOR-SELF-RACE" {
@@ -827,8 +828,11 @@ func parentMain(c *Check, tier Tier, seed uint64, nworkers int, evidencePath, re
 		}
 		if cv == nil {
 			if f.V.Clause != "data-race" {
-				fmt.Fprintf(os.Stderr, "INFRASTRUCTURE: violation %s (seed %d) did not reproduce in a fresh process; first report:\n%s\n", fp, f.Seed, f.V.Detail)
-				return 2
+				// kept aside: it decides the exit status only if no other
+				// violation of this batch is confirmed (a confirmed violation is a
+				// verdict; an unconfirmed one alone is infrastructure trouble)
+				unrepro = append(unrepro, fmt.Sprintf("violation %s (seed %d) did not reproduce in a fresh process, alone or after the worker's preceding runs; first report:\n%s", fp, f.Seed, clip(f.V.Detail, 3000)))
+				continue
 			}
 			unconfirmedRace = true
 			ro.Viol = append(ro.Viol, f.V)
@@ -878,6 +882,17 @@ func parentMain(c *Check, tier Tier, seed uint64, nworkers int, evidencePath, re
 		lines = append(lines, fmt.Sprintf("VIOLATION property=%s replay=%s", c.ID, name))
 		fmt.Fprintf(os.Stderr, "--- %s (seen %d times)\n%s\n", fp, f.Count, clip(v.Detail, 3000))
 		exit = 1
+	}
+
+	for _, u := range unrepro {
+		if exit == 1 {
+			fmt.Fprintf(os.Stderr, "NOTE (not counted): %s\n", u)
+		} else {
+			fmt.Fprintf(os.Stderr, "INFRASTRUCTURE: %s\n", u)
+		}
+	}
+	if len(unrepro) > 0 && exit == 0 {
+		return 2
 	}
 
 	// evidence
